@@ -172,18 +172,20 @@ type memorySizer func(minPages uint32, maxPages *uint32) (min uint32, capacity u
 func newMemorySizer(memoryLimitPages uint32, memoryCapacityFromMax bool) memorySizer {
 	return func(minPages uint32, maxPages *uint32) (min, capacity, max uint32) {
 		if maxPages != nil {
-			if memoryCapacityFromMax {
-				return minPages, *maxPages, *maxPages
-			}
 			// This is an invalid value: let it propagate, we will fail later.
 			if *maxPages > wasm.MemoryLimitPages {
 				return minPages, minPages, *maxPages
 			}
-			// This is a valid value, but it goes over the run-time limit: return the limit.
-			if *maxPages > memoryLimitPages {
-				return minPages, minPages, memoryLimitPages
+			// This is a valid value, but it may go over the run-time limit: return the limit then.
+			// The capacity setting only chooses how much is allocated up front, never what is accepted.
+			max = *maxPages
+			if max > memoryLimitPages {
+				max = memoryLimitPages
 			}
-			return minPages, minPages, *maxPages
+			if memoryCapacityFromMax {
+				return minPages, max, max
+			}
+			return minPages, minPages, max
 		}
 		if memoryCapacityFromMax {
 			return minPages, memoryLimitPages, memoryLimitPages
